@@ -35,6 +35,10 @@ CHECKS["C04"] = dict(level="exploration", ref="6/C04",
    text="Seeded fault injection into real and packager-made streams: unit transport at any depth with repaired or stale sizes, stored-byte faults placed on size/type/version/count fields by an independent header walk, truncation, EIO, seek errors, adversarial delivery; every library call (decode by four consumers x flags, Info at three levels, Size, Encode, EncodeSW in both modes) runs under no-panic, allocation-budget and wall-budget oracles in isolated worker processes with a hang/crash watchdog. Sampling: a clean batch is evidence, not proof.",
    note="Budget constants are ours (property fixes none): 160 MiB + 768 B/byte and 2 s + 200 us/byte, >=10x the maxima measured on the unchanged tree and reported in evidence; memory is measured not faulted; wall-clock overruns are confirmed by repetition and hangs in fresh processes. Sample-table queries on untrusted input (CopySampleData etc.) are outside the statement and not checked here.",
    technique="deterministic simulation with storage/transport fault injection: no-panic, allocation and time budgets per step; isolated workers + watchdog")
+CHECKS["C19"] = dict(level="exploration", ref="6/C19",
+   text="Seeded search over init-building call histories (1-6 tracks, all seven descriptor setters, language tags, timescales); the encoded bytes are read back by an independent walker and compared with a reference model of the track list, then sent through a simulated transport (delivery schedule, either decode path), compared deeply with the built tree, re-encoded, and used to decode a fragment built for a seeded track id.",
+   note="This property has no fault or schedule dimension; the simulator contributes the seeded history search, replay/minimisation and the transport round trip. Parameter sets are fixed public vectors; expectations for handler/media header come from ISO/IEC 14496-12/-30.",
+   technique="deterministic simulation: seeded API-history search vs reference model of the track list + transport round trip")
 PENDING = {k: "claimed in DESIGN.md but its check is not built yet in this revision (work in progress; will move to checks)" for k in ["C02","C03","C04","C05","C06","C10","C11","C12","C19","C20"] if k not in CHECKS}
 def main():
     checks = []
